@@ -3,6 +3,7 @@ use oracle::report::Report;
 
 mod cursor;
 mod reps;
+mod sink;
 mod table;
 mod typed;
 
@@ -46,6 +47,14 @@ fn main() {
             let p = if engine == "c09" { "C09" } else { "C12" };
             let mut r = Report::new("cursor", p, &config);
             cursor::run(&tier, odd, shard, nshards, p, &mut r);
+            r
+        }
+        "c11" | "c12w" => {
+            let shard: usize = arg("--shard", "0").parse().unwrap();
+            let nshards: usize = arg("--nshards", "1").parse().unwrap();
+            let p = if engine == "c11" { "C11" } else { "C12" };
+            let mut r = Report::new("sink", p, &config);
+            sink::run(&tier, odd, shard, nshards, p, &mut r);
             r
         }
         "c10" => {
